@@ -4,6 +4,7 @@
 #include <OCTET_STRING.h>
 #define VF_CB_CAP 12
 #include <vf_cb.h>
+#include <vf_alloc.h>
 #include "oer_support.c"
 #include "OCTET_STRING_oer.c"
 /* the default specifics of OCTET_STRING.c (that unit is not part of this harness) */
@@ -54,6 +55,7 @@ void h_OCTET_STRING_decode_oer(void) {
 	__CPROVER_assert((rv.code == RC_OK || rv.code == RC_WMORE || rv.code == RC_FAIL) && rv.consumed <= size, "C04: code and consumed <= size");
 	if(rv.code == RC_WMORE) __CPROVER_assert(rv.consumed == 0, "C05: starved decode consumes nothing");
 	if(rv.code == RC_OK) __CPROVER_assert(sptr && ((OCTET_STRING_t *)sptr)->size <= size, "C15: the decoded string is never longer than the input");
+	__CPROVER_assert(vf_alloc_peak_request <= size + 64 && vf_alloc_total_requested <= size + 128, "C15: whatever length the input announces, the decoder never asks the allocator for more than the input size plus a constant");
 	if(sptr) { free(((OCTET_STRING_t *)sptr)->buf); free(sptr); }
 }
 
